@@ -255,6 +255,18 @@ CHECKS = {
         'quick': {'shards': 12, 'timeout': 900},
         'thorough': {'shards': 16, 'timeout': 5400},
     },
+    'C20': {
+        'pkg': 'internal/client', 'test': 'TestVerif_C20', 'level': 'exploration',
+        'technique': 'runtime differential monitor: every generated configuration is parsed from a JSON file and from the semicolon-separated option string and the processed result is compared with an independent transcription of the README; malformed inputs with panics recovered; (thorough) strace of the real ck-client binary for the keep-alive parameters that reach the kernel',
+        'level_text': 'All presence/absence combinations of the nine optional keys (512 combinations, cycled several times with representative values incl. NumConn <= 0, KeepAlive <= 0, mixed-case names, the aes-gcm synonym, CDN defaults, empty alternative names, values containing "=" with and without the plugin-host escape) '
+                      'are written as JSON and as an option string: both must parse to the same RawConfig and ProcessRawConfig must yield the documented NumConn/singleplex, keep-alive period, stream timeout, encryption method, transport, browser, websocket URL, addresses and server-name list; '
+                      'each required key missing, a wrong key length and an unknown method must be rejected. 320 malformed option strings/files must produce errors, not panics. In the thorough tier the freshly built ck-client runs under strace and TCP_KEEPIDLE/TCP_KEEPINTVL of its outgoing socket must equal the configured KeepAlive.',
+        'level_note': 'Assumes ' + A_RACE + ' and that tools/../harness/client/c20_test.go:c20Doc transcribes README.md correctly; the 300 s default of StreamTimeout comes from the example configuration (pinned, not documented). Command-line flags of cmd/ck-client other than what the strace run covers are not decided.',
+        'rule': 'case = one generated configuration (presence mask of optional keys x representative values x escape style) given in both syntaxes; distinct = hash of the JSON text; non-trivial = both syntaxes were parsed and all processed fields were compared with the documented meaning',
+        'assumptions': [A_RACE, A_HARNESS],
+        'quick': {'shards': 12, 'timeout': 600},
+        'thorough': {'shards': 16, 'timeout': 3600},
+    },
 }
 
 NOT_APPLICABLE = {p: 'check not built yet in this round (the design in DESIGN.md section 3 applies; runtime monitoring can decide it)'
